@@ -283,6 +283,26 @@ func one(ci int, t target, e elec, learnt *sesshist.ID) (string, [][2]string) {
 				bad("C08/deletion-protection-inconsistent-after-flush/"+en.Kind.String(), "%s %s@%s: %d referrers remain but protection counter is %d", en.Kind, en.Key, en.NI, refs, cnt)
 			}
 		}
+		// Behavioural probe: every group that an entry which remains still points at, but that the flush removed,
+		// is installed again (with a fresh next-hop); it must then be protected, because a referrer is installed.
+		probed := 0
+		for _, en := range after.E {
+			for _, ref := range ribx.Refs(en.NI, en.Payload) {
+				if ref.Kind != ribx.NHG || after.Has(ref.NI, ribx.NHG, ref.Key) || !after.NIs[ref.NI] {
+					continue
+				}
+				var gid uint64
+				fmt.Sscan(ref.Key, &gid)
+				r := s.VerifRIB()
+				r.AddEntry(ref.NI, ribx.Op(9001, ref.NI, spb.AFTOperation_ADD, ribx.NHEntry(77, "7.7.7.7")))
+				r.AddEntry(ref.NI, ribx.Op(9002, ref.NI, spb.AFTOperation_ADD, ribx.NHGEntry(gid, 0, m(77, 1))))
+				_, delFails, _ := r.DeleteEntry(ref.NI, ribx.Op(9003, ref.NI, spb.AFTOperation_DELETE, ribx.NHGEntry(gid, 0)))
+				probed++
+				if len(delFails) == 0 {
+					bad("C08/flush-dropped-protection-of-group-still-referenced-from-another-instance", "after flushing %v, %s@%s still points at group %s@%s; the group was re-installed and its DELETE was accepted", t.nis, en.Key, en.NI, ref.Key, ref.NI)
+				}
+			}
+		}
 		// ... and for keys that are not installed any more: a later re-install must be deletable exactly when
 		// nothing that remains refers to it (counters of flushed instances must not leak).
 		for ni, c := range rc {
@@ -316,4 +336,13 @@ func keys(m map[codes.Code]bool) []string {
 	}
 	sort.Strings(out)
 	return out
+}
+
+// CatalogueSize and BuildCatalogue expose the RIB catalogue to other enumerations (C07).
+func CatalogueSize() int { return len(catalogue) }
+
+// BuildCatalogue builds catalogue entry i on a fresh server.
+func BuildCatalogue(i int) (*server.Server, string, error) {
+	s, err := build(i, nil)
+	return s, catalogue[i].name, err
 }
